@@ -92,6 +92,30 @@ class ControllerNode:
             self.stack = SimNetworkStack(node_id, link)
             self.ctrl.network_stack = self.stack
         self.next_msg_id = 0
+        self.pre_delivery: List[Callable] = []
+        self.post_delivery: List[Callable] = []
+        if link is not None:
+            link.attach(self)
+
+    # link layer -> executor (the only way responses enter the controller)
+    def on_delivery(self, resp: Any, qk: Any, rec: Any) -> None:
+        for f in self.pre_delivery:
+            f(self, resp, qk, rec)
+        self.ex._handle_epr_response(resp)
+        for f in self.post_delivery:
+            f(self, resp, qk, rec)
+
+    def retry_task(self, done: Callable[[], bool], ch: Any, max_delay: int = 500) -> Generator:
+        """Retry timer for responses the executor could not place yet."""
+        while True:
+            if done():
+                return
+            yield ("block", lambda: (self.env.retry_armed and bool(self.ex._pending_epr_responses)) or done())
+            if done():
+                return
+            if self.env.retry_armed and self.ex._pending_epr_responses:
+                self.ex.retry_pending()
+                yield ("sleep", 1 + ch.draw(max_delay, "retry-delay"))
 
     # real message path: bytes -> deserialize_host_msg -> handle_netqasm_message
     def handle_raw(self, raw: bytes) -> Generator:
